@@ -113,6 +113,15 @@ def gen_identity_unrecognised(seed, big):
                 src = lead + ds + de + gap + open_tag + '\nold();\n  more();\n  end();\n' + close + '\nb\n'
                 out.append((dict(cfg(), mode='clean', source=src, ds=ds, de=de),
                             (lambda s_: lambda r: None if r.get('ok') and r.get('output') == s_ else 'an empty tag in front of an opening tag swallows it (a tag has at least one body character), so nothing is ready - yet the output differs from the input: ' + json.dumps(r, ensure_ascii=False)[:200])(src)))
+    # a closing tag is `/name`: with a blank or a line break between the slash and the name the tag's name is `/`, it closes
+    # nothing, the opening tag stays unclosed, nothing is ready
+    for ds, de in (('<', '>'), ('<!--', '-->'), ('/* <', '> */')):
+        for open_tag, nm in ((f"{ds}{TL} to='{PAST}'{de}", TL), (f"{ds} {RM} name='f1' {de}", RM), (f"{ds}{RM} name='f1' unwrap-block{de}", RM)):
+            for gap in (' ', '\n', '\t', '  '):
+                for lead, body in (('a ', ' b '), ('a\n', '\nold();\n'), ('', '\nif x {\n  y\n}\n')):
+                    src = lead + open_tag + body + f"{ds}/{gap}{nm}{de}" + ' KEEP\n'
+                    out.append((dict(cfg(), mode='clean', source=src, ds=ds, de=de),
+                                (lambda s_: lambda r: None if r.get('ok') and r.get('output') == s_ else 'a tag with a blank between the slash and the name is not a closing tag, so nothing is ready - yet the output differs from the input: ' + json.dumps(r, ensure_ascii=False)[:200])(src)))
     # the file ends inside the end delimiter of the closing tag: the closing tag does not exist, nothing is ready
     for ds, de in DELIMS + [('<!--', '-->'), ('// --', '-- //')]:
         if len(de) < 2:
@@ -1059,7 +1068,10 @@ def gen_closer_attrs(seed, big):
     cases = [(('<', '>'), f"foo<{TL} to='{PAST}'>bar</{TL} end>baz", 'foobaz'),
              (('<!--', '-->'), f"a\n<!-- {TL} to=\"{PAST}\" -->\n  <p>SECRET</p>\n<!-- /{TL} campaign-2019 -->\nb\n", 'a\nb\n'),
              (('/* <', '> */'), f"x /* <{RM} name=\"f1\"> */ legacy(); /* </{RM} name=\"f1\"> */ y\n", None),
-             (('<', '>'), f"p\n<{RM} name='zz'>\n<{RM} name='f1'>\nold\n</{RM} x='1'>\nkeep\n</{RM} skip>\nq\n", f"p\n<{RM} name='zz'>\nkeep\n</{RM} skip>\nq\n")]
+             (('<', '>'), f"p\n<{RM} name='zz'>\n<{RM} name='f1'>\nold\n</{RM} x='1'>\nkeep\n</{RM} skip>\nq\n", f"p\n<{RM} name='zz'>\nkeep\n</{RM} skip>\nq\n"),
+             # an opening tag that ends in a lone `/` word is an ordinary opening tag (there is no self-closing form)
+             (('<', '>'), f"foo<{TL} to='{PAST}' />bar</{TL}>baz", 'foobaz'),
+             (('<!--', '-->'), f"a\n<!-- {RM} name='f1' / -->\n  old\n<!-- /{RM} -->\nb\n", 'a\nb\n')]
     for (ds, de), src, exp in cases:
         def oracle(r, exp=exp, src=src):
             if not r.get('ok'):
@@ -1484,8 +1496,27 @@ def gen_list_regions(seed, big):
             for _ in range(rnd.randint(0, 2)):
                 lines.append(rnd.choice(['a();', '  b = 1; // é', '\tc', 'これ', '\x0bold_style();', '\x0c', 'x\x0b\x0b', '\x0b', "const sep = 'a\u2028b';", '\u0085', 'x\u2029y', '// \u0085 NEL \u2028 LS']))
             ind = rnd.choice(['', '  ', '\t'])
-            kind = rnd.choice(['block', 'inline', 'inline_multi', 'pending', 'unwrap'])
-            if kind == 'unwrap':
+            kind = rnd.choice(['block', 'inline', 'inline_multi', 'pending', 'unwrap', 'unwrap_nested'])
+            if kind == 'unwrap_nested':
+                # ready elements inside the kept body of a ready unwrap-block: the items come in the order of the source -
+                # opening part, the regions in the body, closing part
+                first = len(lines) + 1
+                lines += [ind + f"<{RM} name='f1' unwrap-block>", ind + 'if x {']
+                regions.append((first, first + 1, f"<{RM} name='f1' unwrap-block>\n" + ind + 'if x {'))
+                for _ in range(rnd.randint(1, 2)):
+                    lines.append(ind + '  keep();')
+                    if rnd.random() < 0.5:
+                        bf = len(lines) + 1
+                        blk = [ind + '  ' + f"<{TL} to='{PAST}'>", ind + '    temp();', ind + '  ' + f"</{TL}>"]
+                        lines += blk
+                        regions.append((bf, len(lines), '\n'.join(blk)[len(ind) + 2:]))
+                    else:
+                        el = f"<{RM} name='f1'>old()</{RM}>"
+                        lines.append(ind + '  y = ' + el + ';')
+                        regions.append((len(lines), len(lines), el))
+                lines += [ind + '  keep2();', ind + '}', ind + f"</{RM}>"]
+                regions.append((len(lines) - 1, len(lines), ind + '}\n' + ind + f"</{RM}>"))
+            elif kind == 'unwrap':
                 first = len(lines) + 1
                 body = [rnd.choice([ind + '  keep1();', ind + '  é();', '', ind + '  ']) for _ in range(rnd.randint(0, 3))]
                 lines += [ind + f"<{RM} name='f1' unwrap-block>", ind + 'if x {'] + body + [ind + '}', ind + f"</{RM}>"]
@@ -1615,7 +1646,16 @@ def gen_pairing(seed, big):
     if not big:
         rnd.shuffle(seqs2); seqs2 = seqs2[:1200]
     seqs += seqs2
-    long_alpha = alphabet + ['<a x="1">', '<c>', '</c>', '<//a>', '</a x>', '</b y="1">', '<A>', '</A>', '</B>', '<ab>', '</ab>', '<ba>', '</ba>', '<aa>', '</aa>']
+    long_alpha = alphabet + ['<a x="1">', '<c>', '</c>', '<//a>', '</a x>', '</b y="1">', '<A>', '</A>', '</B>', '<ab>', '</ab>', '<ba>', '</ba>', '<aa>', '</aa>',
+                             # an opening tag may end in a lone `/` word (`<a />`): it is an ordinary opening tag named a; `<a/>` is an
+                             # opening tag named `a/`; `</ a>` has the name `/` - a closing tag for the empty name, i.e. stray
+                             '<a />', "<a x='1' />", '<b />', '<a/>', '</a/>', '</ a>', '</ b>', '</\na>']
+    alphabet3 = ['<a />', '<a>', '</a>', '</ a>', '<a/>', '</a/>', 'T']
+    for n in range(2, 5):
+        for tup in itertools.product(alphabet3, repeat=n):
+            if any(tup[i] == 'T' and tup[i + 1] == 'T' for i in range(n - 1)) or not any(c in ('<a />', '</ a>', '<a/>', '</a/>') for c in tup):
+                continue
+            seqs.append(tup)
     for _ in range(600 if big else 200):
         n = rnd.randint(6, 14)
         tup = []
@@ -1640,7 +1680,7 @@ def gen_pairing(seed, big):
             tx = f't{k} ' if c == 'T' else c
             pieces.append((off, tx)); off += len(tx)
         src = ''.join(tx for _, tx in pieces)
-        want = ref([(o, (tx.split(' ')[0] + '>') if tx.startswith('<') and ' ' in tx else tx) for o, tx in pieces])
+        want = ref([(o, (tx.replace('\n', ' ').split(' ')[0] + '>') if tx.startswith('<') and (' ' in tx or '\n' in tx) else tx) for o, tx in pieces])
         def oracle(r, want=want, src=src):
             if not r.get('ok'):
                 return 'parse panicked: ' + str(r.get('panic'))[:160]
